@@ -923,3 +923,89 @@ Proof.
   destruct (exec_block fuel P [fr] (h_body h) s1) as [[?|?] s2] eqn:E2; [|discriminate].
   apply exec_block_yields in E2. intro H'. inversion H'; subst. lia.
 Qed.
+
+(* ---------- the endless loop `while true` with an empty body ---------- *)
+Definition machinery_off (s : state) : Prop := st_stopped s = false /\ st_stop_at s = None.
+
+Lemma tick_off s : machinery_off s ->
+  tick s = (Ok tt, upd_yield (S (st_yields s)) false s).
+Proof. intros (St & At). unfold tick. now rewrite St, At. Qed.
+
+Lemma hget_halloc h v : hget (snd (halloc h v)) (fst (halloc h v)) = Some v.
+Proof. unfold hget, halloc. simpl. apply PositiveMap.gss. Qed.
+
+(* one full iteration: exactly two yields (condition node, body block), same env *)
+Lemma endless_cond g P e s : machinery_off s ->
+  exists s1, exec_cond (S (S (S g))) P e (EBool true) [] s = (Ok (Some SigNone, e), s1) /\
+             machinery_off s1 /\ st_yields s1 = st_yields s + 2.
+Proof.
+  intro Off. rewrite exec_cond_unfold. cbn [eval_expr]. unfold bindM at 1 2. rewrite tick_off by auto.
+  set (s1 := upd_yield (S (st_yields s)) false s).
+  unfold alloc. destruct (halloc (st_heap s1) (HBool true)) as [l h] eqn:Eh.
+  unfold bindM at 1. unfold load at 1. cbn [st_heap upd_heap].
+  assert (Hg : hget h l = Some (HBool true)).
+  { pose proof (hget_halloc (st_heap s1) (HBool true)) as G. now rewrite Eh in G. }
+  rewrite Hg. rewrite exec_block_unfold. unfold bindM at 1 2.
+  assert (Off2 : machinery_off (upd_heap h s1)) by (destruct Off; split; auto).
+  rewrite tick_off by auto. cbn [exec_stmts]. unfold ret.
+  eexists. split; [reflexivity|]. destruct Off. split; [split; auto|]. simpl. lia.
+Qed.
+
+Lemma endless_cond_short P e s : machinery_off s ->
+  exists s1, exec_cond 2 P e (EBool true) [] s = (Er EOutOfFuel, s1) /\ st_yields s1 = st_yields s + 2.
+Proof.
+  intro Off. rewrite exec_cond_unfold. cbn [eval_expr]. unfold bindM at 1 2. rewrite tick_off by auto.
+  set (s1 := upd_yield (S (st_yields s)) false s).
+  unfold alloc. destruct (halloc (st_heap s1) (HBool true)) as [l h] eqn:Eh.
+  unfold bindM at 1. unfold load at 1. cbn [st_heap upd_heap].
+  assert (Hg : hget h l = Some (HBool true)).
+  { pose proof (hget_halloc (st_heap s1) (HBool true)) as G. now rewrite Eh in G. }
+  rewrite Hg. rewrite exec_block_unfold. unfold bindM at 1 2.
+  assert (Off2 : machinery_off (upd_heap h s1)) by (destruct Off; split; auto).
+  rewrite tick_off by auto. cbn [exec_stmts]. unfold fail.
+  eexists. split; [reflexivity|]. simpl. lia.
+Qed.
+
+Lemma endless_while_step g P e s : machinery_off s ->
+  exists s1, exec_while (S (S (S (S g)))) P e (EBool true) [] s = exec_while (S (S (S g))) P e (EBool true) [] s1 /\
+             machinery_off s1 /\ st_yields s1 = st_yields s + 2.
+Proof.
+  intro Off. destruct (endless_cond g P e s Off) as (s1 & E & Off1 & Y).
+  exists s1. split; [|auto]. rewrite exec_while_unfold. unfold bindM. now rewrite E.
+Qed.
+
+(* with fuel n the loop runs out of fuel after exactly 2*(n-2) yields *)
+Theorem endless_while_yields n P e s : machinery_off s ->
+  exists s', exec_while n P e (EBool true) [] s = (Er EOutOfFuel, s') /\
+             st_yields s' = st_yields s + 2 * (n - 2).
+Proof.
+  revert s. induction n as [|n IH]; intros s Off.
+  - eexists. split; [reflexivity|]. simpl. lia.
+  - destruct n as [|[|[|g]]].
+    + eexists. split; [reflexivity|]. simpl. lia.
+    + eexists. split; [reflexivity|]. simpl. lia.
+    + (* fuel 3: the condition and the block tick, then the statement list has no fuel *)
+      destruct (endless_cond_short P e s Off) as (s1 & E & Y).
+      exists s1. rewrite exec_while_unfold. unfold bindM. rewrite E. split; [reflexivity|]. lia.
+    + destruct (endless_while_step g P e s Off) as (s1 & E & Off1 & Y).
+      destruct (IH s1 Off1) as (s' & E' & Y'). exists s'. rewrite E. split; [exact E'|]. lia.
+Qed.
+
+Definition endless_program : program :=
+  {| p_funcs := []; p_handlers := []; p_stmts := [SWhile (EBool true) []] |}.
+
+(* the whole run: out of fuel, after 2*fuel - 6 yields (so >= fuel yields once fuel >= 6) *)
+Theorem endless_run_yields n s : machinery_off s -> 4 <= n ->
+  exists s', run_program n endless_program s = (OErr EOutOfFuel, s') /\
+             st_yields s' = st_yields s + 2 * n - 6.
+Proof.
+  intros Off Hn. destruct n as [|[|n]]; try lia.
+  unfold run_program. unfold bindM at 1. rewrite tick_off by auto.
+  set (s1 := upd_yield (S (st_yields s)) false s).
+  assert (Off1 : machinery_off s1) by (destruct Off; split; auto).
+  simpl p_stmts. rewrite exec_stmts_unfold. cbn [exec_stmt]. unfold bindM at 1 2 3. rewrite tick_off by auto.
+  set (s2 := upd_yield (S (st_yields s1)) false s1).
+  assert (Off2 : machinery_off s2) by (destruct Off1; split; auto).
+  destruct (endless_while_yields n endless_program [] s2 Off2) as (s' & E & Y).
+  rewrite E. eexists. split; [reflexivity|]. rewrite Y. simpl. lia.
+Qed.
